@@ -256,13 +256,27 @@ theorem inv_propose {c : PipeCfg} {u : Bool} {σ : Sys} (hi : Inv u σ) (s w tag
       rw [hst] at hx' ⊢
       exact (hi.wok t x hx').mono (fun e he => (hmem e).mpr (Or.inl he)) (fun _ h => h)
 
+theorem mem_handedToApply {c : PipeCfg} {b : List RawEntry} {e : Entry} (h : e ∈ handedToApply c b) :
+    e ∈ b.filterMap cmdOf := by
+  unfold handedToApply at h
+  by_cases hc : c.applyEachOnce = true
+  · simpa [hc] using h
+  · simp only [hc, Bool.false_eq_true, if_false] at h
+    rcases List.mem_append.mp h with h | h
+    · have hs : (beforeLastBarrier b).Sublist b := by
+        unfold beforeLastBarrier
+        have := (List.dropWhile_sublist (l := b.reverse) isCmdLike).reverse
+        simpa using this
+      exact (hs.filterMap cmdOf).subset h
+    · exact h
+
 theorem inv_step {c : PipeCfg} {u : Bool} (hd : c.completeDeletes = true)
     (hm : c.matchProposer = true ∨ u = true) {σ : Sys} (hi : Inv u σ) (op : Op) (hv : ValidOp u σ op) :
     Inv u (step c σ op) := by
   cases op with
   | next s => exact inv_next hi s
   | propose s w tag => exact inv_propose hi s w tag hv
-  | deliver s b => exact inv_applyMany hd hm s _ hi hv
+  | deliver s b => exact inv_applyMany hd hm s _ hi (fun e he => hv e (mem_handedToApply he))
   | rm s id => exact inv_remove hi s id
   | restart s => exact absurd hv (by simp [ValidOp])
 
@@ -287,7 +301,7 @@ theorem alog_applyMany (c : PipeCfg) (s t : Nat) (es : List Entry) :
     · subst h; simp [applyOne]
     · simp [applyOne, Sys.set_st_other _ _ h, h]
 
-theorem alog_step (c : PipeCfg) (σ : Sys) (op : Op) (t : Nat) :
+theorem alog_step (c : PipeCfg) (ho : c.applyEachOnce = true) (σ : Sys) (op : Op) (t : Nat) :
     ((step c σ op).st t).alog = (σ.st t).alog ++ (deliveredTo t [op]).filterMap cmdOf := by
   cases op with
   | next s =>
@@ -306,7 +320,7 @@ theorem alog_step (c : PipeCfg) (σ : Sys) (op : Op) (t : Nat) :
         rw [register_other h]; simp [nextId, Sys.set_st_other _ _ h]
     simp [step, h1, deliveredTo]
   | deliver s b =>
-    simp only [step, alog_applyMany, deliveredTo]
+    simp only [step, handedToApply, ho, if_true, alog_applyMany, deliveredTo]
     by_cases h : s = t
     · subst h; simp
     · have h' : ¬ t = s := fun e => h e.symm
@@ -326,13 +340,13 @@ theorem deliveredTo_cons (t : Nat) (op : Op) (ops : List Op) :
   | deliver s b => by_cases h : s = t <;> simp [deliveredTo, h]
   | _ => simp [deliveredTo]
 
-theorem alog_run (c : PipeCfg) (ops : List Op) (t : Nat) :
+theorem alog_run (c : PipeCfg) (ho : c.applyEachOnce = true) (ops : List Op) (t : Nat) :
     ∀ σ : Sys, ((run c σ ops).st t).alog = (σ.st t).alog ++ (deliveredTo t ops).filterMap cmdOf := by
   induction ops with
   | nil => intro σ; simp [run, deliveredTo]
   | cons op ops ih =>
     intro σ
     have : run c σ (op :: ops) = run c (step c σ op) ops := rfl
-    rw [this, ih, alog_step, deliveredTo_cons t op ops, List.filterMap_append, List.append_assoc]
+    rw [this, ih, alog_step c ho, deliveredTo_cons t op ops, List.filterMap_append, List.append_assoc]
 
 end NoKV.Cluster
